@@ -197,13 +197,13 @@ def run_parallel(c, rng, work, recs, jobs, gz, inputs, gz_input=False):
     else:
         argv_ = [repo_bin("warc_parallel"), "-j", str(jobs)] + (["-z"] if gz else []) + ["cat"]
         stdin = b"".join(recs)
-    st, so, se = run_tool(argv_, stdin=stdin, timeout=120)
+    st, so, se = run_tool(argv_, stdin=stdin, timeout=25)
     how = "warc_parallel -j %d %s%s cat   (%d records, %d bytes)" % (jobs, "-z " if gz else "", ("-i %d files%s --" % (inputs, " (gz)" if gz_input else "")) if inputs else "<stdin", len(recs), sum(len(r) for r in recs))
     rep = {"op": "warc_parallel", "how": how, "jobs": jobs, "gzip": gz, "inputs": inputs, "status": st,
            "records_hex": [r.hex() for r in recs[:6]] if sum(len(r) for r in recs[:6]) < 3000 else "large", "stderr": se.decode("utf-8", "replace")[-200:]}
     if st != 0:
-        c.violation("warc_parallel-failed: %s ended with status %s" % (how, st), rep)
-        return
+        c.violation("warc_parallel-failed(%s): %s ended with status %s" % ("hang" if st == "timeout" else "status", how, st), rep)
+        return "timeout" if st == "timeout" else None
     if gz:
         got = []
         rest = so
@@ -323,9 +323,14 @@ def main(argv):
     if c.tier == "thorough":
         for _ in range(40):
             runs.append((rng.randrange(1, 17), rng.random() < 0.5, rng.choice((0, 0, 1, 3)), rng.random() < 0.3, make_records(rng.randrange(1, 400), rng.choice((100, 5000, 100000)))))
+    hangs = 0
     for jobs, gz, inputs, gzin, recs in runs:
         c.count(("parallel", jobs, gz, inputs, len(recs)), bucket="warc_parallel/j=%d/%s/%s" % (jobs, "gz-out" if gz else "plain-out", "files" if inputs else "stdin"))
-        run_parallel(c, rng, work, recs, jobs, gz, inputs, gzin)
+        if hangs >= 2:
+            c.broken.append("warc_parallel runs skipped after two hangs")
+            break
+        if run_parallel(c, rng, work, recs, jobs, gz, inputs, gzin) == "timeout":
+            hangs += 1
     shutil.rmtree(work, ignore_errors=True)
 
     return c.finish(level="proof",
